@@ -746,7 +746,26 @@ def kw_groupextra(draw, m):
     ]))
 
 
+@st.composite
+def kw_actionextra(draw, m):
+    """rarely used keywords that are allowed inside ACTIONX (each one a whole keyword)"""
+    g = draw(st.sampled_from(sorted(m.groups)))
+    opts = ["GCONSUMP\n '%s' %s %s /\n/\n" % (g, fnum(draw(st.sampled_from([20, 0, 150.5]))), draw(st.sampled_from(["50", "1*"]))),
+            "NEXT\n %s /\n" % fnum(draw(st.sampled_from([0.5, 2])))]
+    ws = sorted(w for w, W in m.wells.items() if W["conns"])
+    if ws:
+        w = draw(st.sampled_from(ws))
+        W = m.wells[w]
+        opts += ["COMPLUMP\n '%s' %d %d %d %d %d /\n/\n" % ((w,) + tuple(W["conns"][0]) + (W["conns"][0][2], draw(st.integers(1, 3)))),
+                 "WELSPECS\n '%s' '%s' %d %d %s '%s' /\n/\n" % (w, W["group"], W["i"], W["j"], draw(st.sampled_from(["2007.5", "1*"])),
+                                                                 "OIL" if W["kind"] == "P" else W["injtype"])]
+        if W["kind"] == "P" and W.get("ctl") == "prod":
+            opts += ["WTMULT\n '%s' '%s' %s /\n/\n" % (w, draw(st.sampled_from(["BHP", "ORAT"])), fnum(draw(st.sampled_from([0.8, 1.25]))))]
+    return draw(st.sampled_from(opts))
+
+
 EXTRA_GENERATORS = {
+    "actionextra": (kw_actionextra, lambda m: True),
     "wellextra": (kw_wellextra, lambda m: bool(_wells(m))),
     "groupextra": (kw_groupextra, lambda m: len(m.groups) > 1),
     "msw": (kw_msw, lambda m: any(not W.get("msw") for w, W in m.wells.items() if W["conns"]) and
